@@ -31,13 +31,19 @@ def run(tier, seed, ev):
         "thread at every lock acquisition and blob-directory call; at every scheduling point with the state write lock free, every "
         "key in the index must map to an existing blob"])
     with mirrun.mir_executor(PROP + "s") as (ex, scr, mir_s):
-        plans = [(("put", "put"), 1, 2), (("put", "remove"), 1, 2)]
+        # a THIRD commit stopped inside its window (intent registered through the real register_intent, blob renamed): nothing the
+        # two explored threads do may delete its blob or take its intent away ("for some variants a third actor")
+        plans = [(("put", "put"), 1, 2), (("put", "remove"), 1, 2), (("put", "remove"), 2, 2, dict(inflight="pinned"))]
         if tier == "thorough":
+            plans += [(("put", "remove"), 2, 2, dict(inflight=True)), (("put", "delete_orphan"), 2, 2, dict(inflight=True)),
+                      (("remove", "remove"), 2, 2, dict(inflight="pinned"))]
             # put||put also with ONE failed rename into cas/ anywhere (a commit that aborts after registering its intent;
             # the quick tier of C13 runs the same exploration)
             plans += [(("put", "put"), 1, 2, dict(faults=1)), (("put", "remove"), 2, 2), (("put", "put"), 2, 2), (("remove", "remove"), 2, 2), (("put", "delete_orphan"), 2, 2)]
         rc2 = sprop.run_s(PROP, tier, seed, ev, ex, plans)
         ev.bounds["faults in interleavings"] = "thorough: put||put with at most one injected failure, at the rename of a staged blob into cas/ (the call between register_intent and the index apply)"
+        ev.bounds["third actor"] = ("one more put, stopped between its rename into cas/ and its index apply for the whole exploration; its key differs from the "
+                                    "explored puts' keys (two commits on one key = known finding D4); quick: thread keys pinned to the first key of the universe")
         ev.bounds["interleavings"] = "2 threads; key universe 1 (quick) / 2 (thorough), hash universe 2; arbitrary initial index and blob set (referenced + orphans); quiet log stretch (no rollover), N=8"
         ev.functions.append("threads: Transaction::commit, CasInner::remove, OrphanStats::delete_orphan — full MIR, interleaved")
     return tcommon.best(rc1, rc2)
